@@ -5,10 +5,10 @@ package main
 // latch, assumed for an arbitrary iteration).
 
 import (
+	"os"
 	"strings"
 	"encoding/hex"
 	"context"
-	"os"
 	"path/filepath"
 	"fmt"
 	"go/ast"
@@ -168,6 +168,7 @@ type Options struct {
 
 type rootCtx struct {
 	heap0     map[string]*Term
+	ac0       *Term // allocation counter at function entry
 	heapSorts map[string]string
 	strLits   map[string]*Term
 	cellN     int
@@ -285,13 +286,13 @@ func (e *Exec) rootVal(p *Ptr) *Term {
 		return v
 	case PHeap:
 		n, s := objHeap(p.Base)
-		return Select(e.heapGet(n, s), p.Ref)
+		return e.canonObj(e.heapGet(n, s), p.Ref)
 	case PArr:
 		n, s := elemHeap(p.Base)
-		return Select(e.heapGet(n, s), p.Ref)
+		return e.canonObj(e.heapGet(n, s), p.Ref)
 	case PElem:
 		n, s := elemHeap(p.Base)
-		return Select(Select(e.heapGet(n, s), p.Ref), p.Idx)
+		return Select(e.canonObj(e.heapGet(n, s), p.Ref), p.Idx)
 	case PGlobal:
 		n := "G." + mangle(p.Global.Pkg.Pkg.Path()+"."+p.Global.Name())
 		return e.heapGet(n, sortOf(p.Base))
@@ -319,6 +320,68 @@ func (e *Exec) setRootVal(p *Ptr, v *Term) {
 		e.heapGet(n, sortOf(p.Base))
 		e.heapSet(n, v)
 	}
+}
+
+// canonObj reads object ref from heap term h, walking through the chain of stores while the written references
+// are syntactically equal to / different from ref (no solver queries). The result equals (select h ref).
+func (e *Exec) canonObj(h *Term, ref *Term) *Term {
+	budget := 6
+	return e.canonObj1(h, ref, &budget)
+}
+
+func (e *Exec) canonObj1(h *Term, ref *Term, budget *int) *Term {
+	cur := h
+	for depth := 0; depth < 60; depth++ {
+		t := cur
+		if t.Op == "sym" {
+			if d, ok := e.vc.defs[t.Name]; ok {
+				t = d
+			}
+		}
+		if t.Op == "ite" && *budget > 0 && t.Args[1].Sort == h.Sort {
+			// reads distribute over merged heaps, so that frame facts about either side apply
+			*budget--
+			a := e.canonObj1(t.Args[1], ref, budget)
+			b := e.canonObj1(t.Args[2], ref, budget)
+			if same(a, b) {
+				return a
+			}
+			return Ite(t.Args[0], a, b)
+		}
+		if t.Op != "store" {
+			break
+		}
+		eq, neq := e.refRel(t.Args[1], ref)
+		if eq {
+			return t.Args[2]
+		}
+		if !neq {
+			break
+		}
+		cur = t.Args[0]
+	}
+	return Select(cur, ref)
+}
+
+// pathGetDef is pathGet looking through named definitions of constructor terms, so that reading a field of
+// an object that was just written yields the written (or the preserved old) field term.
+func (e *Exec) pathGetDef(root *Term, path []PathEl) *Term {
+	cur := root
+	for _, pe := range path {
+		if pe.Idx != nil {
+			cur = Select(cur, pe.Idx)
+			continue
+		}
+		for k := 0; k < 8 && cur.Op == "sym"; k++ {
+			d, ok := e.vc.defs[cur.Name]
+			if !ok || !(strings.HasPrefix(d.Op, "mk.") || d.Op == "sym") {
+				break
+			}
+			cur = d
+		}
+		cur = FieldSel(structInfo(pe.ContT), cur, pe.Field)
+	}
+	return cur
 }
 
 func pathGet(root *Term, path []PathEl) *Term {
@@ -373,7 +436,31 @@ func (e *Exec) load(p *Ptr) Val {
 	}
 	e.nilCheck(p, "nil dereference")
 	e.lockCheck(p, false)
-	t := pathGet(e.rootVal(p), p.Path)
+	rv := e.rootVal(p)
+	t := e.pathGetDef(rv, p.Path)
+	// a value read from the function's initial heap is an input object: its references are below the entry
+	// allocation counter (not merely below the current one)
+	if e.root.ac0 != nil && (p.Kind == PHeap || p.Kind == PArr || p.Kind == PElem) {
+		b := rv
+		for b.Op == "select" {
+			b = b.Args[0]
+		}
+		if b.Op == "sym" {
+			var hn string
+			if p.Kind == PHeap {
+				hn, _ = objHeap(p.Base)
+			} else {
+				hn, _ = elemHeap(p.Base)
+			}
+			if h0, ok := e.root.heap0[hn]; ok && h0 == b {
+				save := e.st.ac
+				e.st.ac = e.root.ac0
+				v := e.fromTerm(t, p.Typ, true)
+				e.st.ac = save
+				return v
+			}
+		}
+	}
 	return e.fromTerm(t, p.Typ, true)
 }
 
@@ -401,6 +488,12 @@ func (e *Exec) fromTerm(t *Term, typ types.Type, assumeInv bool) Val {
 	if assumeInv && hasInv(typ) {
 		t = e.vc.Define("ld", t)
 		e.vc.Assume(e.g, invOf(typ, t, e.st.ac))
+	} else if hasInv(typ) {
+		// contract evaluation: reuse the name an earlier load gave to the same expression, so that facts and
+		// goals about it are syntactically equal
+		if prev, ok := e.vc.defByExpr[t.Sort+"|"+t.String()]; ok {
+			t = prev
+		}
 	}
 	if e.allocOn && e.vc.frozen == 0 {
 		switch t.Sort {
@@ -1106,6 +1199,16 @@ func (e *Exec) loopModified(lp *Loop) (cells map[*ssa.Alloc]bool, heaps map[stri
 					heaps[mv] = ArraySort(SInt, ArraySort(sortOf(m.Key()), sortOf(m.Elem())))
 				}
 			case ssa.CallInstruction:
+				if os.Getenv("GOWP_DEBUG_LOOP") != "" {
+					tmp := map[string]string{}
+					e.P.callMods(x.Common(), tmp)
+					var ks []string
+					for k := range tmp {
+						ks = append(ks, k)
+					}
+					sort.Strings(ks)
+					fmt.Fprintf(os.Stderr, "loopmods %s: %s -> %v\n", e.fn.Name(), x.Common().String(), ks)
+				}
 				e.P.callMods(x.Common(), heaps)
 				// calls may also write cells whose address they receive (non-heap allocs never escape to calls)
 			}
